@@ -80,7 +80,10 @@ def run(ctx):
                           {"kind": "free-run", "program": r["name"], "threads": r["threads"], "outcome": r["outs"]})
     # binding self-test
     muts = []
+    badkeys = {json.dumps([b["rec"]["name"], b["rec"]["outs"]], sort_keys=True) for b in bad}
     for r in recs:
+        if json.dumps([r["name"], r["outs"]], sort_keys=True) in badkeys:
+            continue        # corrupt only ACCEPTED outcomes
         if r["outs"] and len(muts) < 6:
             a = json.loads(json.dumps(r)); a["outs"][0]["id"] += 1; muts.append(a)
             b = json.loads(json.dumps(r)); b["outs"].append(dict(b["outs"][0])); muts.append(b)
@@ -91,7 +94,7 @@ def run(ctx):
             m["prog"] = i
             f.write(json.dumps(m) + "\n")
     mbad, _, _ = sshdfam.validate(ctx, mp, "linself", parts=1, module="TrackerLin", cfg="TrackerLin.cfg")
-    if len({b["prog"] for b in mbad if b["what"] == "Linearizable"}) != len(muts):
+    if muts and len({b["prog"] for b in mbad if b["what"] == "Linearizable"}) != len(muts):
         raise Infra("binding self-test: corrupted outcomes accepted by TrackerLin")
     return {
         "states": states, "transitions": trans,
